@@ -129,6 +129,35 @@ func c17sweep(c *Check, rng *rand.Rand, yes, no []string) {
 		}
 	}
 	rng.Shuffle(len(items), func(i, j int) { items[i], items[j] = items[j], items[i] })
+	// the same command name twice in a row with different verdicts (valid then invalid
+	// arity and the other way round), also across batches
+	{
+		var pairs []c17item
+		mkItem := func(n string, ac int) c17item {
+			tok := newToken("a")
+			ci := CmdTable[n]
+			args := [][]byte{randCase(rng, n)}
+			for k := 0; k < ac; k++ {
+				a := fmt.Sprintf("%s.%d", tok, k)
+				if ci.Role == RoleScript && k == 1 {
+					a = "1"
+				}
+				args = append(args, []byte(a))
+			}
+			it := c17item{raw: EncodeReq(args...), name: n, argc: ac, tok: tok, sentinel: newToken("sent")}
+			it.served = ArityOK(ci.Arity, ac)
+			return it
+		}
+		for _, n := range []string{"get", "set", "setex", "hset", "lrange", "mset", "eval", "expire", "zadd", "linsert"} {
+			ok := MinimalArgs(CmdTable[n].Arity)
+			badc := ok + 1
+			if CmdTable[n].Arity == ArInf || CmdTable[n].Arity == ArEval || CmdTable[n].Arity == ArEven {
+				badc = ok - 1
+			}
+			pairs = append(pairs, mkItem(n, ok), mkItem(n, badc), mkItem(n, ok), mkItem(n, ok), mkItem(n, badc), mkItem(n, badc), mkItem(n, ok))
+		}
+		items = append(pairs, items...)
+	}
 	cl, err := env.Dial()
 	must(err, "dial")
 	defer func() { cl.Close() }()
@@ -226,6 +255,7 @@ func c17sweep(c *Check, rng *rand.Rand, yes, no []string) {
 		}
 		c.Count("sweep_requests_judged", int64(len(batch)))
 	}
+	c17authUncovered(c, rng)
 	// QUIT: served locally, in every letter case, with and without arguments
 	for _, q := range [][]string{{"QUIT"}, {"quit"}, {"QuIt"}, {"quit", "x"}} {
 		qc, err := env.Dial()
@@ -327,6 +357,38 @@ func c17sizes(c *Check, rng *rand.Rand, limit int) {
 			continue
 		}
 		one(raw, tok, d <= 0, fmt.Sprintf("request-alone/limit%+d", d))
+	}
+	// an oversize request that arrives in two reads, the first piece already above the
+	// limit: one "too large" error for it, the following request is undisturbed
+	for k := 0; k < 3 && eff < 3000000; k++ {
+		tok := newToken("o")
+		raw := sizedGet(eff+50+rng.Intn(eff), tok)
+		if raw == nil {
+			continue
+		}
+		cl, err := env.Dial()
+		must(err, "dial")
+		sent := newToken("sz")
+		cut := eff + 10 + rng.Intn(len(raw)-eff-20)
+		cl.Send(raw[:cut])
+		env.Barrier()
+		time.Sleep(5 * time.Millisecond)
+		cl.Send(append(append([]byte(nil), raw[cut:]...), Req("GET", sent)...))
+		ok := cl.WaitReplies(2, 10*time.Second)
+		s := cl.Snapshot()
+		c.Eval(1)
+		label := "oversize-request-in-two-reads"
+		c.Distinct(fmt.Sprintf("%s/%s/%d", lname, label, k))
+		wit := map[string]interface{}{"limit": eff, "request_size": len(raw), "first_piece": cut, "received": valStrings(s.Replies), "closed": s.Closed}
+		switch {
+		case !ok:
+			c.Violate(Violation{Class: "following-request-disturbed", Shape: lname + "/" + label, Detail: fmt.Sprintf("oversize request sent in two pieces: %d of 2 replies (closed=%v)", len(s.Replies), s.Closed), Witness: wit})
+		case s.Replies[0].Val.Kind != '-':
+			c.Violate(Violation{Class: "request-over-limit-served", Shape: lname + "/" + label, Detail: "oversize request answered " + s.Replies[0].Val.String(), Witness: wit})
+		case !bytes.Equal(s.Replies[1].Val.Raw, BulkReply([]byte("v:"+sent))):
+			c.Violate(Violation{Class: "following-request-disturbed", Shape: lname + "/" + label, Detail: "sentinel got " + s.Replies[1].Val.String(), Witness: wit})
+		}
+		cl.Close()
 	}
 	// split requests: the request's own size is over the limit although every
 	// per-slot fragment is below it (and the other way round for limit-1 / limit)
@@ -488,5 +550,49 @@ func c17sizes(c *Check, rng *rand.Rand, limit int) {
 	}
 	if !env.P.Alive() {
 		c.Violate(Violation{Class: "proxy-died", Shape: lname, Detail: env.P.PanicLine(), Witness: env.P.OutputTail(2000)})
+	}
+}
+
+
+// c17authUncovered: AUTH is answered by the proxy itself whatever the topology: here
+// a slot range has no owner and the passwords tried hash into it.
+func c17authUncovered(c *Check, rng *rand.Rand) {
+	env, err := NewEnv(EnvOpt{Masters: 3, Cfg: ProxyCfg{Password: "hunter2"}, Topo: func(cl *Cluster) *Topo {
+		t := EvenTopo(cl, 3, 0)
+		r := t.Nodes[2].Slots[0]
+		t.Nodes[2].Slots[0] = [2]int{r[0], 15000}
+		return t
+	}})
+	must(err, "start env")
+	defer env.Close()
+	cl, err := env.Dial()
+	must(err, "dial")
+	defer cl.Close()
+	got := 0
+	for i := 0; i < 400; i++ {
+		pw := fmt.Sprintf("pw%d", rng.Intn(1000000))
+		if i%10 == 0 {
+			pw = "hunter2"
+		}
+		uncovered := KeySlot([]byte(pw)) > 15000
+		cl.Send(Req("AUTH", pw))
+		got++
+		if !cl.WaitReplies(got, 3*time.Second) {
+			c.Violate(Violation{Class: "supported-request-not-served", Shape: "auth/uncovered-slot", Detail: "AUTH not answered"})
+			return
+		}
+		v := cl.Snapshot().Replies[got-1].Val
+		c.Eval(1)
+		c.Distinct(fmt.Sprintf("auth/uncovered=%v/correct=%v", uncovered, pw == "hunter2"))
+		want := "-ERR invalid password"
+		if pw == "hunter2" {
+			want = "+OK"
+		}
+		if v.String() != want {
+			c.Violate(Violation{Class: "supported-request-not-served", Shape: "auth/uncovered-slot",
+				Detail:  fmt.Sprintf("AUTH %s (password hashes to slot %d, owned=%v) answered %s, expected %s from the proxy itself", pw, KeySlot([]byte(pw)), !uncovered, v.String(), want),
+				Witness: map[string]interface{}{"password": pw, "slot": KeySlot([]byte(pw))}})
+			return
+		}
 	}
 }
